@@ -28,6 +28,8 @@ pub enum Op {
     },
     Validate,
     Predict,
+    /// attach another optimizer mid-history (state is re-allocated; blocks get a copy)
+    SetOptimizer(OptCfg),
 }
 
 #[derive(Serialize, Deserialize, Clone, Debug)]
@@ -100,6 +102,9 @@ fn execute(case: &Case, ctx: &mut Ctx) -> Vec<Snapshot> {
             Op::Predict => {
                 let _ = net.predict(&xs[0]);
             }
+            Op::SetOptimizer(opt) => {
+                net.set_optimizer(opt.to_lib());
+            }
         }
         snaps.push(snapshot(&net));
     }
@@ -145,6 +150,7 @@ impl Property for C10 {
             "acc_Multiply",
             "acc_Mean",
             "two_learns",
+            "optimizer_swapped_mid_history",
             "clock_advancing",
             "clock_frozen",
             "optimizer_SGDM",
@@ -196,9 +202,14 @@ impl Property for C10 {
                 print: if rng.chance(0.25) { Some(rng.pick(&[1i32, 2, 5])) } else { None },
             });
             if i + 1 < learns || rng.chance(0.3) {
-                match rng.below(3) {
+                match rng.below(4) {
                     0 => ops.push(Op::Validate),
                     1 => ops.push(Op::Predict),
+                    2 => {
+                        if let Some(o) = gen_optimizer(rng, true) {
+                            ops.push(Op::SetOptimizer(o));
+                        }
+                    }
                     _ => {}
                 }
             }
@@ -231,6 +242,7 @@ impl Property for C10 {
             return Outcome::Degenerate("generator produced no feedback block".into());
         }
         stats.probe("two_learns", case.ops.iter().filter(|o| matches!(o, Op::Learn { .. })).count() >= 2);
+        stats.probe("optimizer_swapped_mid_history", case.ops.iter().any(|o| matches!(o, Op::SetOptimizer(_))));
         stats.probe("clock_advancing", case.env.clock.1 != 0);
         stats.probe("clock_frozen", case.env.clock.1 == 0);
         if let Some(o) = &case.net.optimizer {
